@@ -40,6 +40,10 @@ type Case struct {
 	// Hold: the bystander and a fresh connection are probed while the
 	// hostile connections are still open (and once more after they closed).
 	Hold bool `json:"hold,omitempty"`
+	// Counted: every frame written is a request that gets one reply; the
+	// executor goes on as soon as the replies to a chunk are in (or the
+	// connection was closed) instead of waiting for silence.
+	Counted bool `json:"counted,omitempty"`
 }
 
 // unrolled returns the chunks connection i writes, loop unrolled.
@@ -232,11 +236,16 @@ func run(c *Case) error {
 	// silent, the executor counts replies and goes on as soon as everything
 	// written so far was answered (or after 2 ms: a flushed request may stay
 	// unanswered). All connections get their chunk before any is waited for.
-	counted := c.Loops > 1
+	counted := c.Loops > 1 || c.Counted
+	wait := 2 * time.Millisecond
+	if c.Counted {
+		// no repetition rides on it: leave a loaded server the time to put the fids in place
+		wait = 10 * time.Millisecond
+	}
 	sent := make([]int, len(conns))
 	got := make([]replyCounter, len(conns))
 	await := func(i int) {
-		end := time.Now().Add(2 * time.Millisecond)
+		end := time.Now().Add(wait)
 		for got[i].n < sent[i] {
 			_ = conns[i].SetReadDeadline(end)
 			n, err := conns[i].Read(buf)
@@ -244,7 +253,9 @@ func run(c *Case) error {
 			if n == 0 || err != nil {
 				// not waited for again
 				sent[i] = got[i].n
-				hx.ExtraAdd("churn_waits_expired", 1)
+				if c.Loops > 1 {
+					hx.ExtraAdd("churn_waits_expired", 1)
+				}
 				return
 			}
 		}
@@ -258,7 +269,9 @@ func run(c *Case) error {
 			_, _ = conns[i].Write(chunks[k])
 			if counted {
 				sent[i] += countFrames(chunks[k])
-				hx.ExtraAdd("churn_chunks", 1)
+				if c.Loops > 1 {
+					hx.ExtraAdd("churn_chunks", 1)
+				}
 				continue
 			}
 			if k < c.muteAt(i) {
@@ -288,7 +301,8 @@ func run(c *Case) error {
 		}
 	}
 	for i, cn := range conns {
-		if len(plans[i]) <= c.muteAt(i) {
+		if len(plans[i]) <= c.muteAt(i) && !c.Counted {
+			// (a Counted case has waited for its replies already)
 			drain(cn, 3*time.Millisecond)
 		}
 		_ = cn.Close()
@@ -752,7 +766,7 @@ func nontrivial(c *Case) bool {
 			}
 		}
 	}
-	return c.Gen == "struct" || c.Gen == "churn" || c.Gen == "flood"
+	return c.Gen == "struct" || c.Gen == "churn" || c.Gen == "flood" || c.Gen == "tight" || c.Gen == "inner"
 }
 
 func execute(test string, c *Case) error {
